@@ -19,6 +19,7 @@ import json
 import os
 import re
 import sys
+sys.path.insert(0, os.path.dirname(os.path.abspath(__file__)))
 
 REPO = os.environ.get("VERIF_REPO", "/repo")
 OUT = os.path.join(os.path.dirname(os.path.abspath(__file__)), "..", "lean", "TF", "Gen")
@@ -936,6 +937,7 @@ def params_of(params_text, self_ty="u64"):
 def main():
     status = {"translated": {}, "failed": {}, "constants": {}}
     changed = []
+    smt_fns, smt_texts, smt_order, smt_sigs = {}, {}, [], {}
 
     def record(name, rel, text):
         status["translated"][name] = {"source": rel, "sha256": hashlib.sha256(text.encode()).hexdigest()[:16]}
@@ -1120,6 +1122,21 @@ def main():
             (sink if sink is not None else out).append(f"/-- `{rname}` in {rel} -/\n" + text)
             fns[rname] = (lname, ptys, rty)
             record(lname, rel, text)
+            try:   # SMT twin, only used by the failing-input search; never fatal
+                import rs2smt
+                toks = tokenize(body)
+                psr = Parser(toks)
+                ast = psr.parse_block_body(end="")
+                stext, sptys, srty = rs2smt.translate_smt(ast, ps, lname, consts, smt_fns)
+                smt_fns[rname] = (lname, sptys, srty)
+                deps = "".join(smt_texts.get(d, "") for d in smt_order)
+                smt_texts[lname] = stext
+                smt_order.append(lname)
+                smt_sigs[lname] = {"params": [[n, t] for n, t in ps], "ret": srty if not isinstance(srty, tuple) else list(srty[1])}
+                os.makedirs(os.path.join(OUT, "smt"), exist_ok=True)
+                write_if_changed(os.path.join(OUT, "smt", lname + ".smt2"), deps + stext)
+            except Exception as ex:
+                status.setdefault("smt_failed", {})[lname] = f"{type(ex).__name__}: {ex}"
         return try_(f"fn {lname}", go)
 
     tr("montyred", bfe, "montyred", bfe_rel)
@@ -1196,6 +1213,7 @@ def main():
     if write_if_changed(os.path.join(OUT, "MmrIndex.lean"), "\n".join(out)):
         changed.append("MmrIndex")
 
+    status["smt_signatures"] = smt_sigs
     status["changed_files"] = changed
     with open(os.path.join(OUT, "status.json"), "w") as f:
         json.dump(status, f, indent=1, sort_keys=True)
